@@ -663,8 +663,14 @@ where
     ) -> Result<Self, ResamplerConstructionError> {
         validate_ratios(resample_ratio, max_resample_ratio_relative)?;
 
-        let needed_input_size =
-            (chunk_size as f64 / resample_ratio).ceil() as usize + interpolator.len() / 2;
+        let last_index = -((interpolator.len() / 2) as f64);
+        let needed_input_size = Self::calc_needed_len(
+            last_index,
+            chunk_size,
+            resample_ratio,
+            resample_ratio,
+            interpolator.len(),
+        );
         let buffer_channel_length = ((max_resample_ratio_relative + 1.0) * needed_input_size as f64)
             as usize
             + 2 * interpolator.len();
@@ -676,7 +682,7 @@ where
             chunk_size,
             max_chunk_size: chunk_size,
             needed_input_size,
-            last_index: -((interpolator.len() / 2) as f64),
+            last_index,
             current_buffer_fill: needed_input_size,
             resample_ratio,
             resample_ratio_original: resample_ratio,
@@ -690,14 +696,31 @@ where
     }
 
     fn update_needed_len(&mut self) {
+        self.needed_input_size = Self::calc_needed_len(
+            self.last_index,
+            self.chunk_size,
+            self.resample_ratio,
+            self.target_ratio,
+            self.interpolator.len(),
+        );
+    }
+
+    fn calc_needed_len(
+        last_index: f64,
+        chunk_size: usize,
+        resample_ratio: f64,
+        target_ratio: f64,
+        sinc_len: usize,
+    ) -> usize {
         // Input time covered by the next chunk. The step between output frames goes
         // linearly from 1/resample_ratio to 1/target_ratio, reaching it at the last frame.
-        let t_start = 1.0 / self.resample_ratio;
-        let t_end = 1.0 / self.target_ratio;
-        let frames = self.chunk_size as f64;
+        let t_start = 1.0 / resample_ratio;
+        let t_end = 1.0 / target_ratio;
+        let frames = chunk_size as f64;
         let advance = frames * t_start + (t_end - t_start) * (frames + 1.0) / 2.0;
-        self.needed_input_size =
-            (self.last_index + advance + self.interpolator.len() as f64).ceil() as usize;
+        // The interpolation points of the last frame may belong to the next input index,
+        // whose kernel window ends one frame later: floor + 1 instead of ceil.
+        ((last_index + advance + sinc_len as f64).floor() + 1.0).max(0.0) as usize
     }
 }
 
